@@ -23,7 +23,7 @@ LinkSlotW(rel, tg) == IF tg = <<"-">> THEN <<>> ELSE (W(rel) :> LinkNode(tg))
 
 \* link universe: target shapes for a link at the package root (l) and one inside the directory s (k)
 TLp == { <<"f">>, <<"s">>, <<"s","g">>, <<"nowhere">>, <<"..","sib","g">>, <<"..","terraform-sources.json">>, <<"..","..","v">>,
-         <<"k">>, <<"","A","T","w","f">>, <<"","A","v">>, <<"s","..","f">>, <<"p">> }
+         <<"k">>, <<"..","w","f">>, <<"","A","T","w","f">>, <<"","A","v">>, <<"s","..","f">>, <<"p">> }
 TKp == { <<"..","f">>, <<"g">>, <<"..","..","sib">>, <<"..","l">> }
 CoreP == (W(<<"f">>) :> FileNode(644, 2, 1)) @@ (W(<<"s">>) :> D7) @@ (W(<<"s","g">>) :> FileNode(600, 2, 2))
 LinkTrees ==
